@@ -43,6 +43,10 @@ FIRST_LOOK = {  # recorded when the seed was first run, before any rule was touc
  "C30-10": "caught", "C30-11": "missed", "C30-12": "missed",
  "C08-10": "missed", "C08-11": "caught", "C08-12": "caught",
  "C05-10": "caught", "C05-11": "missed", "C05-12": "caught",
+ "C27-10": "caught", "C27-11": "caught", "C27-12": "caught",
+ "C28-10": "missed", "C28-11": "missed", "C28-12": "missed",
+ "C13-10": "caught", "C13-11": "caught", "C13-12": "caught",
+ "C06-10": "missed", "C06-11": "missed", "C06-12": "missed",
  "C10-10": "missed", "C10-11": "missed", "C10-12": "unknown-shape alarm only (a false one: R10e took `Pos{}` in reset() for state; corrected)",
 }
 def key(d):
